@@ -19,7 +19,7 @@ func init() {
 		Explanation: "Static purity audit (EFF ownership analysis). R1: in every library function reachable from an engine query, a retrieval helper or a result getter, each store, map update, append or in-place library call targets memory allocated by the query itself " +
 			"(or the pooled request handed out for exclusive use); the only writes to shared memory are the declared memo states — the storage's rule cache (keyed by the retrieved index), the rule's lazily compiled pattern and invalid flag, " +
 			"the file list's read position and buffer inside its retriever — each a deterministic function of immutable data. R2: every field of the pooled rules.Request is stored unconditionally between pool.Get and the first use, " +
-			"so nothing of the previous query survives. R3: no append/in-place operation on a slice that shares its backing array with caller- or engine-owned memory (capacity-capped reslices accepted). R4: the slices in returned results are fresh. R6: query code builds no sequence and picks no element by ranging over a map (iteration order is randomised). sync/atomic and sync.Map mutators on cells that reachable code reads back count as writes; an element loaded from a collection of references is fresh only if everything put into the collection was.",
+			"so nothing of the previous query survives. R3: no append/in-place operation on a slice that shares its backing array with caller- or engine-owned memory (capacity-capped reslices accepted). R4: the slices in returned results are fresh. R6: query code builds no sequence and picks no element by ranging over a map (iteration order is randomised). sync/atomic and sync.Map mutators on cells that reachable code reads back count as writes; an element loaded from a collection of references is fresh only if everything put into the collection was. The map field of a struct received by value is shared memory (its update is reported with the field it belongs to).",
 		Trusted:     []string{"'no shared write other than a deterministic memo implies the answer is independent of the query history' (the argument is not re-proved)", "parameter freshness is the conjunction over all call sites inside the library; exported functions get non-fresh parameters"},
 		Assumptions: []string{"the equality of answers across histories is derived, never observed (no execution in this technique family)"},
 	})
